@@ -248,7 +248,14 @@ theorem robofab_removed_from_lib (i : Input) (o : Output) (h1 : i.fmt = 1) (hl :
     (h : load i = .ok o) :
     (∀ k ∈ o.libKeys, k ∉ Spec.robofabKeys) ∧
     (i.reqLib = true → ∀ k ∈ i.libKeys, k ∉ Spec.robofabKeys → k ∈ o.libKeys) := by
-  have hk : Gen.robofabRemoved = Spec.robofabKeys := by decide +kernel
+  -- set-wise: the order of the `lib.remove` statements is not part of the statement
+  have hset : (∀ x ∈ Gen.robofabRemoved, x ∈ Spec.robofabKeys) ∧ (∀ x ∈ Spec.robofabKeys, x ∈ Gen.robofabRemoved) := by
+    decide +kernel
+  have hk : (fun k => !Gen.robofabRemoved.contains k) = (fun k => !Spec.robofabKeys.contains k) := by
+    funext k
+    congr 1
+    rw [Bool.eq_iff_iff, List.contains_iff_mem, List.contains_iff_mem]
+    exact ⟨hset.1 k, hset.2 k⟩
   have hlib : o.libKeys = (if i.reqLib then i.libKeys else []).filter (fun k => !Spec.robofabKeys.contains k) := by
     unfold load at h
     cases hf : fromFile i.fmt i.attrs with
